@@ -80,11 +80,23 @@ func content(r *rand.Rand, n int, alphabet int) string {
 		for i := range b {
 			b[i] = hd[r.Intn(len(hd))]
 		}
+	case 3: // white space only
+		const ws = " \t\n\r\v\f"
+		for i := range b {
+			b[i] = ws[r.Intn(len(ws))]
+		}
+	case 4: // one byte value repeated (NUL, hyphen, 0xff, space, ...)
+		c := []byte{0, '-', 0xff, ' ', '0', '\n'}[r.Intn(6)]
+		for i := range b {
+			b[i] = c
+		}
 	default: // any byte
 		r.Read(b)
 	}
 	return string(b)
 }
+
+const alphabets = 5 // 0..4; 2 is "any byte"
 
 type rtCase struct {
 	Prefix    string `json:"prefix"`
@@ -298,7 +310,7 @@ func TestEnum_Lengths(t *testing.T) {
 		rec.Gauge("max_payload_"+prefix, int64(max))
 		if vkit.Thorough() {
 			for n := 1 + shard; n <= max; n += shards {
-				roundTrip(t, prefix, content(r, n, n%3), n%3, nil, nil)
+				roundTrip(t, prefix, content(r, n, n%alphabets), n%alphabets, nil, nil)
 			}
 			rec.Exhaustive("all payload lengths 1..limit for prefix "+prefix, true)
 		} else {
@@ -306,7 +318,7 @@ func TestEnum_Lengths(t *testing.T) {
 				if i%shards != shard {
 					continue
 				}
-				for a := 0; a < 3; a++ {
+				for a := 0; a < alphabets; a++ {
 					roundTrip(t, prefix, content(r, n, a), a, nil, nil)
 				}
 			}
@@ -368,7 +380,7 @@ func TestProp_RoundTrip(t *testing.T) {
 		if n > max {
 			n = max
 		}
-		alphabet := rapid.IntRange(0, 2).Draw(t, "alphabet")
+		alphabet := rapid.IntRange(0, alphabets-1).Draw(t, "alphabet")
 		r := rand.New(rand.NewSource(rapid.Int64().Draw(t, "contentseed")))
 		value := content(r, n, alphabet)
 		chunks := (n + per - 1) / per
